@@ -59,6 +59,9 @@ func checkRedactionFunc(c *fw.Ctx, ver, fnShort, exp, pos string) {
 	} else if got != "" {
 		c.Fail(rule, construct, pos, fmt.Sprintf("%s implements %s but the specification assigns %s to version %s", fnShort, got, exp, ver))
 		return
+	} else if strings.HasPrefix(detail, "UNRESOLVED:") {
+		c.Undecided(rule, construct, detail)
+		return
 	} else {
 		c.Fail(rule, construct, pos, fmt.Sprintf("%s does not implement %s: %s", fnShort, exp, detail))
 	}
@@ -126,7 +129,7 @@ func checkGenericRedaction(c *fw.Ctx) {
 					c.Fail(rule, construct, c.P.Pos(fw.InstrPos(mu)), "the value stored into the redacted content is not the value of a comma-ok lookup in the original content")
 					continue
 				}
-				if lk.Index != mu.Key {
+				if lk.Index != mu.Key && fw.Sig(lk.Index) != fw.Sig(mu.Key) {
 					c.Fail(rule, construct, c.P.Pos(fw.InstrPos(mu)), "the value is stored under a different key than it was read from")
 					continue
 				}
@@ -307,23 +310,33 @@ func checkRedactMethods(c *fw.Ctx) {
 		// no way through Redact() avoids the room version's redaction, except when the event is
 		// already marked redacted; in particular the flag is never set without it
 		must := fw.MustCallSites(fn, redactName)
+		// paths on which the event is already marked redacted are excluded by removing the edge
+		// taken when the receiver's redacted flag is set
+		already := map[fw.Edge]bool{}
+		for _, iff := range fw.Ifs(fn) {
+			cv, neg := fw.BoolCond(iff.Cond)
+			if strings.HasSuffix(fw.Sig(cv), ".redacted") && strings.HasPrefix(fw.Sig(cv), "*recv") {
+				already[fw.IfEdge(iff.Block(), !neg)] = true
+			}
+		}
 		nret := 0
 		for _, r := range fw.Returns(fn) {
-			already := false
-			for _, f := range fw.DomConds(r.Block()) {
-				if f.Taken && strings.HasSuffix(f.Sig, ".redacted") {
-					already = true
-				}
-			}
-			if already {
-				continue
+			if !fw.PathAvoidingEdges(fn.Blocks[0], nil, r, already) {
+				continue // reachable only for already redacted events
 			}
 			nret++
-			c.Check(!fw.PathAvoiding(fn.Blocks[0], must, r), rule, spec+" always applies the room version's redaction", c.P.Pos(fw.InstrPos(r)), "", "Redact() can return without having run RedactEventJSON although the event was not marked redacted: top-level keys outside the keep-list survive")
+			if len(must) == 0 {
+				c.Undecided(rule, spec+" always applies the room version's redaction", "no call of RedactEventJSON (direct or through a helper that always makes it) was found")
+				continue
+			}
+			c.Check(!fw.PathAvoidingEdges(fn.Blocks[0], must, r, already), rule, spec+" always applies the room version's redaction", c.P.Pos(fw.InstrPos(r)), "", "Redact() can return without having run RedactEventJSON although the event was not marked redacted: top-level keys outside the keep-list survive")
 		}
 		c.Min(rule+" "+spec+" returns", nret, 1)
 		for _, st := range rs {
-			c.Check(!fw.PathAvoiding(fn.Blocks[0], must, st), rule, spec+" sets the redacted flag only after redacting", c.P.Pos(fw.InstrPos(st)), "", "redacted = true can be stored on a path that never ran RedactEventJSON")
+			if len(must) == 0 {
+				break
+			}
+			c.Check(!fw.PathAvoidingEdges(fn.Blocks[0], must, st, already), rule, spec+" sets the redacted flag only after redacting", c.P.Pos(fw.InstrPos(st)), "", "redacted = true can be stored on a path that never ran RedactEventJSON")
 		}
 		// roomVersion carried over
 		rv := fw.FieldStores(fn, "eventV1", "roomVersion")
